@@ -47,8 +47,12 @@ def gen_history(rnd, nact):
         if r < 0.05:
             # many new statements in one file (a count threshold in how IDs are reserved would only show here)
             acts.append(("add_many", rnd.randrange(0, 4), rnd.choice([129, 150, 257, 300, 12, 20, 25, 95]), rnd.randrange(1 << 30)))
-        elif r < 0.22:
+        elif r < 0.18:
             acts.append(("add", rnd.randrange(0, 4), rnd.random(), rnd.randrange(1 << 30)))
+        elif r < 0.22:
+            # a merge brings in a statement that already carries a reference at or just above the lock's current value (numbered on
+            # another branch, or by hand) while the lock file keeps its value, together with new statements in the same file
+            acts.append(("merge_in", rnd.randrange(0, 4), rnd.choice([0, 0, 0, 1, 1, 2, 3]), rnd.randrange(1 << 30)))
         elif r < 0.36:
             acts.append(("del_stmt", "highest" if rnd.random() < 0.6 else "random", rnd.random()))
         elif r < 0.40:
@@ -98,6 +102,7 @@ class World:
         self.log = []
         self.known_stale = False
         self.stale = False
+        self.foreign = set()     # markers of statements whose reference the developer brought in: not IDs "the tool has written"
 
     def close(self):
         self.box.close()
@@ -120,7 +125,7 @@ class World:
         for rel in self.files:
             for line in self.box.read(rel).splitlines():
                 m = RE_MARK.search(line)
-                if not m:
+                if not m or int(m.group(1)) in self.foreign:
                     continue
                 # structured projects may hold both forms (breadlog:no-kvp keeps the reference in the message)
                 i = (RE_ID_KV.search(line) or RE_ID_MSG.search(line)) if self.structured else RE_ID_MSG.search(line)
@@ -172,6 +177,26 @@ def run_history(built, acts, structured, record=False):
                         lines.insert(at, piece)
                     w.next_marker += 1
                 w.flush()
+            elif kind == "merge_in":
+                _, fi, off, bits = a
+                lk = core.read_lock(w.lockp)
+                if lk[0] != "ok" or lk[1] + off > core.U32MAX - 4:
+                    continue
+                rel = "src/f%d.rs" % fi
+                lines = w.files.setdefault(rel, [b"// file %d\n" % fi, b"fn f() {\n", b"}\n"])
+                x = lk[1] + off
+                merged = ('    warn!(ref = %d; "S%d_ merged in with its reference");\n' if structured else '    warn!("[ref: %d] S%d_ merged in with its reference");\n') % (x, w.next_marker)
+                w.foreign.add(w.next_marker)
+                w.next_marker += 1
+                at = min(len(lines) - 1, 2 + (bits >> 8) % max(1, len(lines) - 2))
+                lines.insert(at, merged.encode())
+                for j in range(1 + bits % 2):
+                    pos = (len(lines) - 1) if (bits >> 4) % 2 else at
+                    for piece in reversed(stmt_line(w.next_marker, structured, bits >> (3 * j + 1)).splitlines(keepends=True)):
+                        lines.insert(pos, piece)
+                    w.next_marker += 1
+                w.flush()
+                stats["merged_in"] = stats.get("merged_in", 0) + 1
             elif kind == "add_many":
                 _, fi, n, bits = a
                 rel = "src/f%d.rs" % fi
@@ -342,6 +367,7 @@ def work(job):
     res["counters"]["max_ghost_size"] = 0
     res["counters"]["histories_near_top_of_id_range"] = stats.get("near_top", 0)
     res["counters"]["histories_with_symlinked_lock"] = stats.get("lock_symlink", 0)
+    res["counters"]["merges_bringing_in_referenced_statements"] = stats.get("merged_in", 0)
     for k, n in stats["abnormal"].items():
         res["counters"]["abnormal_end_fired_" + k] = n
     if stats["del_highest_then_insert"] or stats["abnormal"]:
